@@ -9,7 +9,10 @@ pub use fbh::mapmodel::S;
 pub struct MRef { pub class: S, pub name: S, pub desc: S }
 
 #[derive(Clone, Copy, Debug, PartialEq, Eq, Hash)]
-pub enum CallKind { Virtual, Special, Static, Interface }
+pub enum CallKind { Virtual, Special, Static, Interface,
+	/// an invokedynamic instruction (name and descriptor of the call site in `target`, class = the bootstrap method's owner):
+	/// ignored by the code under test, absent from the model's view of a body
+	Dynamic }
 
 #[derive(Clone, Debug, PartialEq, Eq, Hash)]
 pub struct Call { pub kind: CallKind, pub iface_ref: bool, pub target: MRef }
@@ -41,7 +44,7 @@ pub fn g_pairs(v: &[(MRef, MRef)]) -> String { glist(v.iter().map(|(a, b)| gpair
 fn g_meth(m: &AMeth) -> String {
 	format!("(mkJM {} {} (mkAcc {} {} {} {} {}) {})", gstr(&m.name), gstr(&m.desc),
 		gbool(m.is(ACC_PRIVATE)), gbool(m.is(ACC_STATIC)), gbool(m.is(ACC_FINAL)), gbool(m.is(ACC_BRIDGE)), gbool(m.is(ACC_SYNTHETIC)),
-		gopt(m.calls.as_ref().map(|cs| glist(cs.iter().map(|c| g_mref(&c.target))))))
+		gopt(m.calls.as_ref().map(|cs| glist(cs.iter().filter(|c| c.kind != CallKind::Dynamic).map(|c| g_mref(&c.target))))))
 }
 pub fn g_class(c: &AClass) -> String {
 	format!("(mkJC {} {} {} {})", gstr(&c.name), gopt(c.super_class.as_ref().map(|s| gstr(s))), glist(c.interfaces.iter().map(|s| gstr(s))), glist(c.methods.iter().map(g_meth)))
@@ -56,7 +59,7 @@ pub fn show_class(c: &AClass) -> String {
 		o += &format!("  method flags={:#06x} {}{}", m.flags, show(&m.name), show(&m.desc));
 		match &m.calls {
 			None => o += " (no Code)\n",
-			Some(cs) => { o += &format!(" invokes [{}]\n", cs.iter().map(|c| show_mref(&c.target)).collect::<Vec<_>>().join(", ")); }
+			Some(cs) => { o += &format!(" invokes [{}]\n", cs.iter().map(|c| if c.kind == CallKind::Dynamic { format!("invokedynamic {}{} (bootstrap in {})", show(&c.target.name), show(&c.target.desc), show(&c.target.class)) } else { show_mref(&c.target) }).collect::<Vec<_>>().join(", ")); }
 		}
 	}
 	o
